@@ -124,6 +124,11 @@ func (z *Int) SetFromDecimal(s string) error {
 	if s == "" {
 		return fmt.Errorf("missing digits")
 	}
+	// the magnitude parser tolerates one more leading '+' ("++5", "-+5"): only digits may follow the sign
+	if s[0] < '0' || s[0] > '9' {
+		z.neg = false
+		return fmt.Errorf("invalid decimal digit %q", s[0])
+	}
 
 	if err := z.mag.SetFromDecimal(s); err != nil {
 		return err
